@@ -292,11 +292,12 @@ def execute(case):
         c['maps'] = [mp] if mp else 'none'
         return c
 
-    def report(check, sig, detail, ncase):
+    def report(check, sig, detail, ncase, score=0.0):
+        """One violation per signature and case: the sub-point with the largest deviation (first one on ties)."""
         s = dict(sig, check=check)
         key = repr(sorted(s.items()))
-        if key not in V:
-            V[key] = {'check': check, 'signature': s, 'detail': detail, 'case': ncase}
+        if key not in V or score > V[key][0]:
+            V[key] = (score, {'check': check, 'signature': s, 'detail': detail, 'case': ncase})
 
     # ---- the implementations of this case -------------------------------------------------------------------------
     impls = {}
@@ -380,7 +381,7 @@ def execute(case):
             e = int(np.argmax(np.abs(y - yref)))
             report('reference', {'sign': sign, 'ns': ns},
                    {'field': x, 'got': y, 'reference': yref, 'max_abs_diff': err, 'element': e, 'tol': TOL_REF,
-                    'parameters': [xi0, p, eps]}, narrowed(k))
+                    'parameters': [xi0, p, eps]}, narrowed(k), score=err)
         if not exact_equal(y[base], x[base]):
             report('base_layer', {'sign': sign}, {'field': x, 'got': y, 'base_layer_elements': base}, narrowed(k))
         over = float(np.max(y - x))
@@ -406,7 +407,7 @@ def execute(case):
             if not e <= b:
                 report(chk, sg, {'direction_given': arg, 'same_direction_as_vector': list(want_dir), 'field': x,
                                  'got': yf, 'got_with_vector_form': y, 'max_abs_diff': e,
-                                 'module.direction': im.direction_attribute()}, narrowed(k, form=name))
+                                 'module.direction': im.direction_attribute()}, narrowed(k, form=name), score=e)
         for name, role, perm, tdir, im in maps:
             xt = np.zeros(nel)
             xt[perm] = x
@@ -420,11 +421,11 @@ def execute(case):
                 report('covariance', {'map': role},
                        {'map': name, 'direction': dname, 'mapped_direction': tdir, 'field': x, 'result': y,
                         'mapped_field': xt, 'result_on_mapped_field': yt, 'mapped_result': yexp, 'max_abs_diff': e},
-                       narrowed(k, mp=name))
+                       narrowed(k, mp=name), score=e)
 
     chunk = case.get('chunk')
     key = f"{grid}|ns{ns}|{par}|{dname}|{case['fam']}{case.get('tabs', '')}|{chunk}"
     outcome = (f"{dim}d/{dname}/ns{ns}/layers{'1' if nlay == 1 else '>1'}/err{mag(maxerr)}/removed{min(maxrem, 3)}"
                f"/over{mag(max(maxover, 0.0))}")
     return {'states': len(fields), 'transitions': cnt['trans'], 'checks': cnt['checks'], 'nontrivial': nlay >= 2,
-            'key': key, 'outcome': outcome, 'observed_only': sorted(observed), 'violations': list(V.values())}
+            'key': key, 'outcome': outcome, 'observed_only': sorted(observed), 'violations': [v for _, v in V.values()]}
